@@ -151,6 +151,80 @@ func racing(n, m, acts int) func() {
 	}
 }
 
+// multi (seed c03-5): K tokens reach a one-incoming gateway G(1:M) over ONE flow at practically the
+// same moment (the K requests of the task in front of it are answered from K goroutines at once),
+// so that several consecutive activations' arrivals sit in the gateway's inbox together. Every
+// arrival is an activation of its own: each of the M downstream tasks is requested K times.
+func multi(k, m int) func() {
+	g := drv.NewGraph(fmt.Sprintf("pg_multi_k%d_m%d", k, m))
+	start, f, work, gw, end := g.Add(drv.Start, "start"), g.Add(drv.AND, "F"), g.Add(drv.Task, "work"), g.Add(drv.AND, "G"), g.Add(drv.End, "end")
+	g.Link(start, f, nil)
+	for i := 0; i < k; i++ {
+		g.Link(f, work, nil)
+	}
+	g.Link(work, gw, nil)
+	for i := 1; i <= m; i++ {
+		d := g.Add(drv.Task, fmt.Sprintf("d%d", i))
+		g.Link(gw, d, nil)
+		g.Link(d, end, nil)
+	}
+	defs := g.Parse()
+	return func() {
+		sig := "C03/pargw-multi"
+		r := drv.Open(g, defs, drv.OpenOpts{})
+		var w *drv.Wait
+		r.AfterStart = func() { w = r.WaitComplete(nil) }
+		r.StartAll()
+		verifrt.WaitIdle()
+		if n := len(r.PendingIDs()); n != k || r.Requests("work") != k {
+			h.Fail(sig+"/not-requested", "the task in front of the gateway should be requested %d times, unanswered requests are %v", k, r.PendingIDs())
+			return
+		}
+		answerAll := func() bool {
+			returned, want := 0, 0
+			for _, p := range r.Tasks {
+				if !p.Answered {
+					p.Answered = true
+					want++
+					go func() { p.T.Do(); returned++ }()
+				}
+			}
+			verifrt.WaitIdle()
+			if returned != want {
+				h.Fail(sig+"/do-returns", "%d of %d Do calls returned", returned, want)
+				return false
+			}
+			return true
+		}
+		if !answerAll() {
+			return
+		}
+		for i := 1; i <= m; i++ {
+			if n := r.Requests(fmt.Sprintf("d%d", i)); n != k {
+				clause := "/not-requested"
+				if n > k {
+					clause = "/requested-too-often"
+				}
+				h.Fail(sig+clause, "%d tokens went through the 1:%d gateway at once: every downstream task should be requested %d times, d%d was requested %d times (unanswered: %v)", k, m, k, i, n, r.PendingIDs())
+				return
+			}
+		}
+		if !answerAll() {
+			return
+		}
+		if len(r.PendingIDs()) != 0 {
+			h.Fail(sig+"/requested-too-often", "further requests appeared: %v", r.PendingIDs())
+			return
+		}
+		if w == nil || !w.Returned || !w.Result {
+			h.Fail(sig+"/completes", "all %d x %d tokens are through but the instance has not completed; live: %v", k, m, verifrt.LiveRepoGoroutines())
+		}
+		if len(r.Grammar) > 0 {
+			h.Fail("C09/engine/causal-order", "%s", r.Grammar[0])
+		}
+	}
+}
+
 func init() {
 	h.Register("C03", func(tier string) ([]*h.Scn, []*h.Plain) {
 		var out []*h.Scn
@@ -205,6 +279,21 @@ func init() {
 					}
 					if d >= 2 {
 						sc.Split = 16
+					}
+					out = append(out, sc)
+				}
+			}
+		}
+		for k := 2; k <= 4; k++ {
+			for m := 1; m <= 2; m++ {
+				for d := 0; d <= 1; d++ {
+					if d == 1 && !thorough && (k > 3 || m > 1) {
+						continue
+					}
+					sc := &h.Scn{Name: fmt.Sprintf("C03/pargw-multi/K%dM%d/d%d", k, m, d), Body: multi(k, m), Opts: verifrt.Options{Bound: d, UseCache: true}}
+					sc.Weight = k * m * (1 + 1500*d)
+					if d == 1 {
+						sc.Split = 4
 					}
 					out = append(out, sc)
 				}
